@@ -20,6 +20,11 @@ def _evaluate(ctx, res, coll, tag, count=True):
     insts, cases, metas = [], [], []
     for kind, mno, out in res["fjsp"]:
         if out["rewards"] is None:
+            raw = out.get("rewards_raw") or []
+            for b, x in enumerate(raw):      # integer instances have integer makespans: an infinite / nan reward is no objective value
+                if x != x or x in (float("inf"), float("-inf")):
+                    coll.fail("%s: reward-differs-from-objective" % kind, C.fjsp_replay_obj(kind, mno, out, b, {
+                        "observed_reward": repr(x), "what": "the reported reward is not a finite number"}))
             continue
         for b, row in enumerate(out["rows"]):
             insts.append(out["insts"][b])
